@@ -7,7 +7,7 @@ import ast
 from ..core import Ctx, RuleResult, finding, short, walk_no_nested
 from ..model import AnalysisError, norm
 from ..mutants import Mut
-from ..rules import exc, prog
+from ..rules import accum, exc, prog
 from ..rules.exc import ExcEngine
 from ..rules.util import callee_name, cfg_of, lin_str, linear, nodes_where
 from . import c01, c11
@@ -184,6 +184,7 @@ def run(ctx: Ctx):
         rule_align(ctx),
         r6,
         rule_reopen(ctx),
+        accum.run_accum(p, "C03.9", "C03", floor=3),
     ]
 
 
